@@ -270,3 +270,18 @@ M("C08", "module-level-cache", "geneticengine/grammar/utils.py", "def is_abstrac
 M("C08", "native-global-rng", SRC, "        return self.random.randint(min, max)", "        return random.randint(min, max)", "C08.R2")
 M("C08", "twin-sorted-set-iteration", GRM, "        return max(list(map(dist, self.all_nodes)))", "        return max(dist(x) for x in self.all_nodes)", "", expect="silent")
 M("C08", "twin-mentioned-symbols-set-call", GRM, "return {x for t in self.get_all_symbols()[2] for x in self.collect_types(t)}", "return set(x for t in self.get_all_symbols()[2] for x in self.collect_types(t))", "", expect="silent")
+
+# ------------------------------------------------------------------------------------- C11
+TU = "geneticengine/representations/tree/utils.py"
+M("C11", "create-node-returns-unwrapped", INI, "            v = apply_constructor(starting_symbol, args)\n            return wrap_result(v, global_context, context)", "            v = apply_constructor(starting_symbol, args)\n            return v", "C11.R1")
+M("C11", "tree-mutate-skips-relabel", TB, "    relabeled_new_tree = relabel_nodes_of_trees(new_tree, g)\n    return relabeled_new_tree", "    return new_tree", "C11.R1",
+  extra=[(TB, "        return wrap_result(v, global_context, i.gengy_synthesis_context)\n", "        return v\n")])
+M("C11", "recursive-call-drops-list-flag", TU, "            nodes, dist, thisway, weighted_nodes = relabel_nodes(\n                c,\n                g,\n                isinstance(c, list),\n            )",
+  "            nodes, dist, thisway, weighted_nodes = relabel_nodes(c, g)", "C11.R3")
+M("C11", "index-adopts-child-list", TU, "            for k, v in thisway.items():\n                types_this_way[k].extend(v)",
+  "            for k, v in thisway.items():\n                if k in types_this_way:\n                    types_this_way[k].extend(v)\n                else:\n                    types_this_way[k] = v", "C11.R4")
+M("C11", "donor-index-edited", TB, "            if not options:\n                return create_node(global_context, ty, i.gengy_synthesis_context, dependent_values)",
+  "            if options and source_material[0] in options:\n                options.remove(source_material[0])\n            if not options:\n                return create_node(global_context, ty, i.gengy_synthesis_context, dependent_values)", "C11.R4")
+M("C11", "new-typechecking-only-use", "geneticengine/grammar/utils.py", "def is_builtin_class_instance(obj):\n    return obj.__class__.__module__ == \"builtins\"", "def is_builtin_class_instance(obj):\n    return obj.__class__.__module__ == \"builtins\" and not isinstance(obj, GengyList)", "C11.R2")
+M("C11", "twin-relabel-kw-flag", TU, "                c,\n                g,\n                isinstance(c, list),\n            )", "                c,\n                g,\n                is_list=isinstance(c, list),\n            )", "", expect="silent")
+M("C11", "twin-index-extend-copy", TU, "                types_this_way[k].extend(v)", "                types_this_way[k].extend(list(v))", "", expect="silent")
